@@ -41,7 +41,11 @@ fn pos(cs: &[Chunk], ty: &[u8; 4]) -> Option<usize> {
 /// every mutation: (reason the strict readers must give, mutated bytes); None when the base
 /// archive has no place for it
 fn mutations(base: &[u8]) -> Vec<(&'static str, &'static str, Vec<u8>)> {
-    let cs = rd::part_chunks(base).expect("base archive scans");
+    // a base archive the library wrote badly: no mutations (the lib: case itself reports it)
+    let cs = match rd::part_chunks(base) {
+        Ok(cs) => cs,
+        Err(_) => return Vec::new(),
+    };
     let mut out: Vec<(&'static str, &'static str, Vec<u8>)> = Vec::new();
     let n = cs.len();
     // whole-file mutations
